@@ -94,6 +94,9 @@ reg = {
                      "helpers": ["lock", "from", "into_iter", "collect", "is_empty", "system_freed_pages", "drop_unpersisted_data_freed_after",
                                  "take_post_commit_allocations", "record_unpersisted_data_freed", "flush_and_close", "adopt_unpersisted", "page_allocator",
                                  "store_data_freed_pages", "non_durable_commit", "durable_commit", "apply_savepoint_state_on_commit"]},
+        # the catalog walk and the multimap subtree walk between dbverify and merkle
+        "tableverify": {"overlay": "units/tableverify.ovl", "canaries": ["canary_tableverify"],
+                        "helpers": ["clone", "get_page", "new", "verify_checksum", "fixed_width", "fixed_width_with", "next", "parse_subtree_roots", "value", "range", "hint"]},
         "types_sep": {"overlay": "units/types_sep.ovl", "canaries": ["canary_types_sep"], "helpers": ["common_prefix_len"]},
         # the page-level checksum walk over an abstract page store
         "merkle": {"overlay": "units/merkle.ovl", "canaries": ["canary_merkle"],
@@ -202,12 +205,14 @@ P["C01"] = {
 P["C12"] = {
     "level": "proof",
     "verus": [{"unit": "dbverify", "functions": ["Database::verify_primary_checksums", "Database::verify_checksums"]},
+              {"unit": "tableverify", "functions": ["TableTree::verify_checksums", "verify_tree_and_subtree_checksums"]},
               {"unit": "merkle", "functions": ["RawBtree::verify_checksum", "RawBtree::verify_checksum_helper"]}],
-    "assumptions": ["merkle unit: pages, BranchAccessor::{new, count_children, child_page, child_checksum}, PageResolver::get_page, PageImpl::memory and leaf_checksum / branch_checksum are abstract: assumed contracts over uninterpreted functions of the page number (kind, recomputed checksum, child table); <[T]>::contains is given no specification",
+    "assumptions": ["tableverify unit: raw_ok(root, key width, value width) stands for RawBtree::new(root, ..).verify_checksum() == Ok(true) (what the merkle unit proves about the real walk); the catalog's entries, the pages of a tree (AllPageNumbersBtreeIter) and the subtree roots stored in a page (parse_subtree_roots) are uninterpreted; the two iterators are models with an inherent next() yielding their sequence in order (rule R18 desugars the for loops over them, rule R17 the let-chain)",
+                    "merkle unit: pages, BranchAccessor::{new, count_children, child_page, child_checksum}, PageResolver::get_page, PageImpl::memory and leaf_checksum / branch_checksum are abstract: assumed contracts over uninterpreted functions of the page number (kind, recomputed checksum, child table); <[T]>::contains is given no specification",
                     "dbverify unit: TableTree::verify_checksums returns Ok(b) with b == tree_ok(root of the tree it was built from) (uninterpreted predicate; the page-level walk itself is not verified here); TransactionalMemory::get_data_root / get_system_root return the roots of the primary slot"],
     "kani": [K["C12-K1K2"], K["C12-K2b"], alias("C01-K3", "C12-K3"), K["C12-K4"]],
-    "explanation": "Kernel: the corrupted flag of a commit slot is exactly 'stored checksum != computed' for all 2^1016 slot images; a slot that failed verification is written back verbatim (never re-serialised as valid) until a new commit overwrites it; selection never returns a corrupt slot; a version byte other than 3 is never parsed; the REAL page-level walk RawBtree::verify_checksum(_helper) returns Ok(true) only if the checksum of EVERY page of the subtree was recomputed and matched the checksum its parent (or the root header) stores for it, for trees of any shape up to the depth limit (soundness of the Merkle walk, over an abstract page store); the REAL glue Database::verify_primary_checksums / verify_checksums answers Ok(true) only if BOTH the data tree and the system tree of the primary slot verified (against assumed callee contracts).",
-    "not_decided": "every byte position of every image; TableTree::verify_checksums (iterates a B-tree range: no Verus model) and the multimap subtree walk; that leaf_checksum/branch_checksum hash every byte an accessor can return (bounded C10-P3 only); XXH3 being XXH3",
+    "explanation": "Chain: Database::verify_checksums (dbverify: both trees) -> TableTree::verify_checksums (tableverify: the REAL catalog walk reports clean exactly when the catalog tree verifies AND every table it lists verifies with the key / value widths of its definition - no table is skipped, an empty table does not end the walk) -> verify_tree_and_subtree_checksums (tableverify: a multimap table is clean exactly when its own tree verifies AND every per-key subtree in every one of its pages verifies as a tree keyed by the table's VALUE width) -> RawBtree::verify_checksum (merkle: every page reachable from the root hashes to the checksum stored for it). Kernel: the corrupted flag of a commit slot is exactly 'stored checksum != computed' for all 2^1016 slot images; a slot that failed verification is written back verbatim (never re-serialised as valid) until a new commit overwrites it; selection never returns a corrupt slot; a version byte other than 3 is never parsed; the REAL page-level walk RawBtree::verify_checksum(_helper) returns Ok(true) only if the checksum of EVERY page of the subtree was recomputed and matched the checksum its parent (or the root header) stores for it, for trees of any shape up to the depth limit (soundness of the Merkle walk, over an abstract page store); the REAL glue Database::verify_primary_checksums / verify_checksums answers Ok(true) only if BOTH the data tree and the system tree of the primary slot verified (against assumed callee contracts).",
+    "not_decided": "every byte position of every image; that the catalog range iterator and AllPageNumbersBtreeIter really yield every entry / page (B-tree cursors); that leaf_checksum/branch_checksum hash every byte an accessor can return (bounded C10-P3 only); XXH3 being XXH3",
 }
 P["C10"] = {
     "level": "other",
@@ -249,10 +254,11 @@ P["C07"] = {
 }
 P["C09"] = {
     "level": "proof",
-    "verus": [{"unit": "mmiter", "functions": ["LeafKeyIter::next_key", "LeafKeyIter::next_key_back"]}],
+    "verus": [{"unit": "mmiter", "functions": ["LeafKeyIter::next_key", "LeafKeyIter::next_key_back"]},
+              {"unit": "tableverify", "functions": ["verify_tree_and_subtree_checksums"]}],
     "kani": [K["C09-K1"], K["C09-K2"]],
     "assumptions": ["M2 (mmiter unit): key_at(n) returns the n-th value of the inline collection iff n is below the number of values (its body builds a LeafAccessor over the page bytes; layout: bounded Kani harness C09-K2)"],
-    "explanation": "Kernel: (V) the REAL double-ended cursor over the values of a key stored inline (LeafKeyIter::next_key / next_key_back): the values not yet yielded are exactly the indices between the two cursors, every call yields the smallest / largest of them and removes exactly it, and None is returned exactly when none is left - so every value is yielded once whatever mixture of next() and next_back() consumes them, for every collection size; (K) the per-key collection record: subtree form round trip (complete) and inline form (bounded).",
+    "explanation": "Kernel: (V) the REAL double-ended cursor over the values of a key stored inline (LeafKeyIter::next_key / next_key_back): the values not yet yielded are exactly the indices between the two cursors, every call yields the smallest / largest of them and removes exactly it, and None is returned exactly when none is left - so every value is yielded once whatever mixture of next() and next_back() consumes them, for every collection size; (W) the REAL integrity walk of a multimap table (verify_tree_and_subtree_checksums): every per-key subtree of every page is verified, as a tree keyed by the table's value width; (K) the per-key collection record: subtree form round trip (complete) and inline form (bounded).",
     "not_decided": "multimap operation sequences (insert / remove / remove_all), inline <-> subtree transitions, len(), the subtree cursor (btree_cursor.rs), compaction of multimap tables",
 }
 P["C11"] = {
